@@ -4,6 +4,7 @@
 (* contains its pixel, lies inside the image, has arms <= distance - 1 (>= the one-pixel minimum), and the aggregate of  *)
 (* a plane never reads another plane.                                                                                *)
 EXTENDS Aggregation, TLC
+CONSTANT Thorough
 VARIABLES e, phase
 Rw == [1..4 -> {0, 10}]
 ZeroM == [r \in 1..3 |-> [c \in 1..4 |-> 0]]
@@ -14,7 +15,7 @@ Init == /\ phase = 0
                    L |-> <<pat, pat, pat>>, R |-> <<pat, pat, pat>>, mL |-> m, mR |-> ZeroM,
                    cv |-> [r \in 1..3 |-> [c \in 1..4 |-> <<1>>]], first |-> 0]
 Next == /\ phase = 0 /\ phase' = 1
-        /\ \E a \in Rw, b \in Rw : e' = [e EXCEPT !.L = <<a, b, a>>]
+        /\ \E a \in Rw, b \in (IF Thorough THEN Rw ELSE {[c \in 1..4 |-> IF c = 2 THEN 10 ELSE 0]}) : e' = [e EXCEPT !.L = <<a, b, a>>]
 PixAll == (1..3) \X (1..4)
 ValidL(x) == e.mL[x[1]][x[2]] = 0
 T_RegionContainsPixel == \A x \in PixAll : <<x[1], x[2]>> \in Region(e, x[1], x[2], 0)
@@ -22,5 +23,6 @@ T_RegionInside == \A x \in PixAll : \A y \in Region(e, x[1], x[2], 0) : y[1] \in
 T_ArmBound == \A x \in PixAll : \A dd \in {<<0, 1>>, <<0, -1>>, <<1, 0>>, <<-1, 0>>} :
                  Arm(e, <<"L", 0>>, x[1], x[2], dd[1], dd[2]) <= (IF e.dist = 1 THEN 1 ELSE e.dist - 1)
 T_MaskedHasNoArm == \A x \in PixAll : ~ValidL(x) => \A dd \in {<<0, 1>>, <<0, -1>>, <<1, 0>>, <<-1, 0>>} : Arm(e, <<"L", 0>>, x[1], x[2], dd[1], dd[2]) = 0
+T_TableAgrees == LET T == ArmTable(e) IN \A x \in PixAll : RegionTab(e, T, x[1], x[2], 0) = Region(e, x[1], x[2], 0)
 T_CountIsRegion == \A x \in PixAll : AggCount(e, x[1], x[2], 0) >= 1 /\ AggSum(e, x[1], x[2], 0, 1) = AggCount(e, x[1], x[2], 0)
 =============================================================================
